@@ -3,6 +3,9 @@ import glob, json, os
 for mp in sorted(glob.glob("/verif/seeded/*/meta.json")):
     d = os.path.dirname(mp)
     m = json.load(open(mp))
+    if "applies_to" in m:
+        print(os.path.basename(d), "confirmed by hand (applies to a parent commit)")
+        continue
     log = os.path.join(d, "confirm.log")
     L = open(log).read().splitlines() if os.path.exists(log) else []
     summ = [l for l in L if l.startswith("SUMMARY")]
